@@ -1,5 +1,6 @@
 """Rule/instance bookkeeping, known findings, evidence and verdict lines."""
 import json
+import re
 import os
 import time
 
@@ -64,6 +65,10 @@ class Check:
         self.instances.append(Instance(rule, key, True, file, line, detail=detail, nontrivial=nontrivial))
 
     def bad(self, rule, key, file=None, line=None, what="", expected=None, found=None, detail=None):
+        if re.search(r"(not evaluable|cannot evaluate|unexpected arity|expected one helper call)", what or ""):
+            # the analyser could not interpret the construct: fail closed, but never as a violation claim
+            self.inconc(rule, f"{key}: {what}: {str(found)[:120]}")
+            return
         self.instances.append(Instance(rule, key, False, file, line, what, expected, found, detail))
 
     def expect(self, rule, key, cond, file=None, line=None, what="", expected=None, found=None, detail=None):
